@@ -1,0 +1,47 @@
+//go:build verif
+
+package index
+
+// Verification hooks for property C03 (match locations and context). Not part of the normal build.
+
+// VerifC03Newlines exposes the methods of `newlines` over explicit newline offsets.
+type VerifC03Newlines struct {
+	Locs     []uint32
+	FileSize uint32
+}
+
+func (n VerifC03Newlines) nl() newlines { return newlines{locs: n.Locs, fileSize: n.FileSize} }
+
+func (n VerifC03Newlines) AtOffset(off uint32) int   { return n.nl().atOffset(off) }
+func (n VerifC03Newlines) LineStart(line int) uint32 { return n.nl().lineStart(line) }
+func (n VerifC03Newlines) OffsetRangeToLineRange(s, e uint32) (int, int) {
+	return n.nl().offsetRangeToLineRange(s, e)
+}
+func (n VerifC03Newlines) GetLines(data []byte, low, high int) []byte {
+	return n.nl().getLines(data, low, high)
+}
+
+// VerifC03Chunk is the observable part of a candidateChunk.
+type VerifC03Chunk struct {
+	FirstLine, LastLine, MinOffset, MaxOffset uint32
+	Cands                                     []VerifC02Cand
+}
+
+// VerifC03ChunkCandidates is chunkCandidates.
+func VerifC03ChunkCandidates(cs []VerifC02Cand, n VerifC03Newlines, numContextLines int) []VerifC03Chunk {
+	var out []VerifC03Chunk
+	for _, c := range chunkCandidates(verifC02ToCands(cs), n.nl(), numContextLines) {
+		out = append(out, VerifC03Chunk{c.firstLine, c.lastLine, c.minOffset, c.maxOffset, verifC02FromCands(c.candidates)})
+	}
+	return out
+}
+
+// VerifC03Columns feeds one columnHelper over data the (lineOffset, offset) queries in order.
+func VerifC03Columns(data []byte, queries [][2]uint32) []uint32 {
+	c := columnHelper{data: data}
+	var out []uint32
+	for _, q := range queries {
+		out = append(out, c.get(int(q[0]), q[1]))
+	}
+	return out
+}
